@@ -27,6 +27,17 @@ type plannedFn struct {
 	kind             string // kept edited renamed added removed renamed-sameshape
 }
 
+func topoOfShort(res []diff.FingerprintResult, short string) *topology.FunctionTopology {
+	for _, x := range res {
+		if cli.ShortFunctionName(x.FunctionName) == short {
+			if fn := x.GetSSAFunction(); fn != nil {
+				return topology.ExtractTopology(fn)
+			}
+		}
+	}
+	return nil
+}
+
 func suiteDiffReport(c *Ctx) error {
 	c.Res.Rule = "old/new file pairs: 6..10 functions from the generator, each planned as kept / edited (behaviour-changing rewrite) / renamed only / added / removed, plus 2..3 renamed functions that share one shape; real cli.ComputeDiff; oracles: every old and every new function in exactly one entry, same-name functions paired by name, summary counters = entry counts, pairings one-to-one and >= threshold, a pure rename of a uniquely shaped function is reported as `old → new` renamed with similarity 1; the matched/added/removed partition is compared with the Lean model run on the real topologies; non-trivial = the pair has at least one rename and one added or removed function; distinct by sources"
 	n := c.N
@@ -69,6 +80,19 @@ func suiteDiffReport(c *Ctx) error {
 				oldP.Funcs = append(oldP.Funcs, f)
 				newP.Funcs = append(newP.Funcs, nf)
 				plan = append(plan, plannedFn{f.Name, f.Name, "edited"})
+			case k == 5 && f.Exec:
+				// renamed AND slightly edited: pairs (if at all) with a similarity below 1
+				nf, _ := applyRewrite(rr, f, pick(rr, changingKinds))
+				if nf == nil {
+					nf = f
+				}
+				g := *nf
+				g.Name = "Edited" + f.Name
+				// a few straight-line instructions more: same fuzzy bucket, similarity strictly below 1
+				g.Body = append([]GStmt{SRaw{"println(§a§+§b§*3, len(§s§)^7)"}}, nf.Body...)
+				oldP.Funcs = append(oldP.Funcs, f)
+				newP.Funcs = append(newP.Funcs, &g)
+				plan = append(plan, plannedFn{f.Name, g.Name, "renamed-and-edited"})
 			case k < 7:
 				g := *f
 				g.Name = "Moved" + f.Name
@@ -183,6 +207,18 @@ func suiteDiffReport(c *Ctx) error {
 				viol("C09", "C09/by-name-pair-with-different-names", fmt.Sprintf("%s / %s", m.OldFunction, m.NewFunction))
 			}
 			if !m.MatchedByName {
+				// the reported similarity IS the structural similarity of the pair (not a rounded or otherwise
+				// derived figure): recompute it from the two real functions
+				if m.Similarity < 1 {
+					c.Count("fuzzy_pairs_below_1")
+				} else {
+					c.Count("fuzzy_pairs_at_1")
+				}
+				if ot, nt := topoOfShort(oldRes, m.OldFunction), topoOfShort(newRes, m.NewFunction); ot != nil && nt != nil {
+					if real := topology.TopologySimilarity(ot, nt); real != m.Similarity {
+						viol("C19", "C19/reported-similarity-is-not-the-structural-similarity", fmt.Sprintf("%s → %s reported %v, TopologySimilarity of the two functions is %v", m.OldFunction, m.NewFunction, m.Similarity, real))
+					}
+				}
 				if m.Similarity < models.DefaultTopologyMatchThreshold || math.IsNaN(m.Similarity) {
 					viol("C19", "C19/pair-below-threshold", fmt.Sprintf("%s → %s similarity %v", m.OldFunction, m.NewFunction, m.Similarity))
 				}
